@@ -243,12 +243,41 @@ def gen(rng, tier, idx):
         else:
             cmds.append(["sortset", rev, lim] + ds)
 
+    def swap_history():
+        """re-index documents so that term frequencies change but the number of documents and of distinct
+        words does not (a word of one document is replaced by a word some other document still has)"""
+        for _ in range(rng.randrange(1, 3)):
+            known = [d for d in table if table[d]]
+            if not known:
+                return
+            d = rng.choice(known)
+            ws = list(table[d])
+            others = [w for d2, w2 in table.items() if d2 != d for w in w2]
+            if not others:
+                return
+            i = rng.randrange(len(ws))
+            if ws[i] in others or ws.count(ws[i]) > 1:
+                ws[i] = rng.choice(others)
+            else:
+                ws.append(rng.choice(others))
+            cmds.append([rng.choice(["reindex", "index"]), d] + ws)
+            table[d] = ws
+
     history(ndocs + rng.randrange(0, 3))
+    first = len(cmds)
     for _ in range(rng.randrange(2, 5)):
         tree_cmds()
+    asked = [c for c in cmds[first:] if c[0] in ("apply", "applyb", "applysort")]
     if rng.random() < 0.6:
-        history(rng.randrange(1, 4))
-        for _ in range(rng.randrange(1, 3)):
+        if rng.random() < 0.5:
+            swap_history()
+        else:
+            history(rng.randrange(1, 4))
+        # the SAME queries again on the changed corpus (scores are a function of the current corpus: seeded
+        # change C20_C cached the query weight per query text while document and word counts stayed the same)
+        for c in rng.sample(asked, min(len(asked), rng.randrange(1, 3))):
+            cmds.append(list(c))
+        for _ in range(rng.randrange(0, 2)):
             tree_cmds()
     for _ in range(rng.randrange(0, 3)):
         sort_cmds()
